@@ -45,6 +45,15 @@ def small_disc(size):
     return bytes(img)
 
 
+def gap_disc():
+    """free spans of 10, 3 and 1 sectors separated by one-sector files, and nothing free at the end: the LAST file
+    extract-unused writes is the smallest, the first the largest"""
+    # sectors: 2 file, 3..12 free (10), 13 file, 14..16 free (3), 17 file, 18 free (1), 19 file to the end
+    files = [images.E('TAIL', 19, (400 - 19) * 256, dir='$'), images.E('C', 17, 256, dir='$'), images.E('B', 13, 200, dir='$'), images.E('A', 2, 1, dir='$')]
+    img, model = disc.build_spec({'kind': 'acorn', 'tracks': 40, 'spt': 10, 'files': files, 'title': 'GAPS', 'tag': 'G'})
+    return bytes(img)
+
+
 def basic_prog():
     lines = [(10 * i, b'\xf1"LINE %d OF A FAIRLY LONG PROGRAM";' % i + b'\xe5' + R.encode_linenum(10)) for i in range(1, 260)]
     return R.frame('6502', lines)
@@ -159,6 +168,8 @@ def w_extract_limit(case):
         cmd = case['cmd']
         if case.get('small') is not None:
             dfsrun.write(d, 'big.ssd', small_disc(case['small']))
+        if case.get('gaps'):
+            dfsrun.write(d, 'big.ssd', gap_disc())
         argv = argv_of('dfs', cmd)
         ref = run.run_limited(argv, cwd=d)
         tree = dfsrun.read_tree(os.path.join(d, 'out'))
@@ -193,7 +204,7 @@ def w_extract_limit(case):
                 res['viol'].append((sig + ':no-diagnostic', 'N=%d exit %d' % (N, r.exit)))
             else:
                 bump(res, 'ok-reported')
-            res['nt'].append(('extract', tuple(cmd), N, case.get('small')))
+            res['nt'].append(('extract', tuple(cmd), N, case.get('small'), case.get('gaps')))
         if res['viol']:
             res['case'] = case
     except Exception:
@@ -415,6 +426,15 @@ def fam_extract_small(tier):
             yield {'w': 'extract', 'cmd': cmd, 'small': size, 'limits': list(range(0, 70))}
 
 
+def fam_extract_gaps(tier):
+    """a disc whose free spans shrink towards the end (10, 3, 1 sectors) and whose files grow: a limit that refuses an
+    early output file but admits the last one must still give a failure status"""
+    lim = sorted(set(list(range(0, 2700, 1 if tier == 'thorough' else 64)) + [255, 256, 257, 767, 768, 769, 2559, 2560, 2561]))
+    for cmd in (['extract-unused', 'out'], ['extract-files', 'out']):
+        for i in range(0, len(lim), 30):
+            yield {'w': 'extract', 'cmd': cmd, 'gaps': True, 'limits': lim[i:i + 30]}
+
+
 def fam_dev(tier):
     """/dev/full and closed pipes for every command; missing / non-directory destinations"""
     for tool, cmds in (('dfs', DFS_CMDS + [['extract-unused', 'out']]), ('basic', BASIC_CMDS)):
@@ -424,7 +444,8 @@ def fam_dev(tier):
 
 
 FAMILIES = [('D-devfull-closedpipe-baddest', fam_dev), ('X-exact-buffer-multiple-listings', fam_exact), ('O-stdout-refuses-at-N', fam_stdout), ('E-extracted-file-refuses-at-N', fam_extract),
-            ('S-small-files-sidecar-refuses-at-N', fam_extract_small)]
+            ('S-small-files-sidecar-refuses-at-N', fam_extract_small),
+            ('G-outputs-of-decreasing-size', fam_extract_gaps)]
 
 
 def main(tier, seed):
